@@ -106,6 +106,9 @@ pub struct Out {
     /// known-finding id -> (hits, first example)
     pub known: BTreeMap<String, (u64, Value)>,
     pub notes: Vec<String>,
+    /// cross-process observations: question -> (answer, where it was answered). Every worker process that asks the same
+    /// question must get the same answer; the orchestrator compares them when it merges the shard results.
+    pub xobs: BTreeMap<String, (String, String)>,
     kfs: Vec<KnownFinding>,
     classifier: Option<Classifier>,
     journal: Option<std::fs::File>,
@@ -128,6 +131,7 @@ impl Out {
             dropped_violations: 0,
             known: BTreeMap::new(),
             notes: vec![],
+            xobs: BTreeMap::new(),
             kfs: vec![],
             classifier: None,
             journal: None,
@@ -231,6 +235,11 @@ impl Out {
         self.violations.iter().map(|v| v.count).sum::<u64>() + self.dropped_violations
     }
 
+    /// Record the answer this process got to a question that other worker processes ask too.
+    pub fn xobs(&mut self, question: String, answer: String, whereabouts: &str) {
+        self.xobs.insert(question, (answer, whereabouts.to_string()));
+    }
+
     pub fn to_json(&self) -> Value {
         let known: Map<String, Value> =
             self.known.iter().map(|(k, (n, ex))| (k.clone(), json!({"hits": n, "example": ex}))).collect();
@@ -243,13 +252,18 @@ impl Out {
             "dropped_violations": self.dropped_violations,
             "known": known,
             "notes": self.notes,
+            "xobs": self.xobs.iter().map(|(k, (a, w))| json!([k, a, w])).collect::<Vec<_>>(),
             "cases": self.cases,
             "distinct_overflow": self.distinct_overflow,
         })
     }
 
     pub fn write_files(&self, path: &Path) {
-        std::fs::write(path, serde_json::to_vec(&self.to_json()).unwrap()).expect("write shard result");
+        // a string handed out by the code under test may hold bytes that are not UTF-8 (that is itself reported where a
+        // monitor looks at it); the result file must stay readable, so such bytes are replaced here
+        let raw = serde_json::to_vec(&self.to_json()).unwrap();
+        let clean = String::from_utf8_lossy(&raw).into_owned();
+        std::fs::write(path, clean.as_bytes()).expect("write shard result");
         let mut bytes = Vec::with_capacity(self.distinct.len() * 8);
         for h in &self.distinct {
             bytes.extend_from_slice(&h.to_le_bytes());
@@ -302,6 +316,25 @@ impl Out {
             for n in a {
                 if let Some(s) = n.as_str() {
                     self.note(s.to_string());
+                }
+            }
+        }
+        if let Some(a) = v.get("xobs").and_then(|c| c.as_array()) {
+            for x in a {
+                let (Some(k), Some(ans), Some(wh)) = (x.get(0).and_then(|s| s.as_str()), x.get(1).and_then(|s| s.as_str()), x.get(2).and_then(|s| s.as_str())) else { continue };
+                match self.xobs.get(k) {
+                    None => {
+                        self.xobs.insert(k.to_string(), (ans.to_string(), wh.to_string()));
+                    }
+                    Some((a0, w0)) if a0 != ans => {
+                        let (a0, w0) = (a0.clone(), w0.clone());
+                        let label = k.split('|').next().unwrap_or(k).to_string();
+                        self.count("cross_process_questions_answered_differently", 1);
+                        self.violation("same-answer-in-every-process", format!("{label}:differs-between-processes"),
+                                       json!({"cross_process": true, "question": k, "process_a": w0, "process_b": wh}),
+                                       format!("{a0} (in the process that {w0})"), format!("{ans} (in the process that {wh})"));
+                    }
+                    Some(_) => self.count("cross_process_answers_agreeing", 1),
                 }
             }
         }
